@@ -469,7 +469,12 @@ impl FileMetaStore {
         value: &[u8],
     ) -> Result<(), Error> {
         if key == HARD_STATE_KEY {
-            let hard_state_path = self.data_dir.join(HARD_STATE_FILE_NAME);
+            // Write a temporary file, sync it, then rename it over the old one: a crash at
+            // any point leaves either the previous hard state or the new one, never an empty
+            // or half-written file (which load_from_file would treat as "no state").
+            let final_path = self.data_dir.join(HARD_STATE_FILE_NAME);
+            let hard_state_path = self.data_dir.join(format!("{HARD_STATE_FILE_NAME}.tmp"));
+            let tmp_path = hard_state_path.clone();
             #[cfg(d_engine_verif)]
             let verif_path = self.data_dir.clone();
             #[cfg(d_engine_verif)]
@@ -481,8 +486,11 @@ impl FileMetaStore {
             #[cfg(d_engine_verif)]
             d_engine_core::verif::point("meta_save:after_write", Some(&verif_path), value.len() as u64, 0);
             file.flush()?;
+            file.sync_all()?;
             #[cfg(d_engine_verif)]
             d_engine_core::verif::point("meta_save:after_flush", Some(&verif_path), 0, 0);
+            drop(file);
+            fs::rename(&tmp_path, &final_path)?;
         }
 
         Ok(())
